@@ -300,6 +300,7 @@ fn run_pvw(era: &str, ins: &[Val], outs: &[Val], fee: u64, mint: &Option<Vec<(u8
         fee,
         mint: mint.clone(),
         required_signers: None,
+        certs: vec![],
         witnesses: None,
     };
     let f = synth::build(&t);
